@@ -345,7 +345,8 @@ class Prop(PropBase):
                 # same values AND the same result type as the operation on the bare arrays, unless the wrapping class has to cast
                 rcls = type(yy).__name__ if isinstance(yy, pb.Signal) else None
                 must_cast = rcls is not None and REQ[rcls] is not None and str(ref.dtype) not in REQ[rcls]
-                it["dtype_same"] = bool(must_cast or sigs.same_dtype(val.dtype, ref.dtype))
+                # (a result that had to be cast has to have landed in the class's dtype set)
+                it["dtype_same"] = bool(str(val.dtype) in REQ[rcls] if must_cast else sigs.same_dtype(val.dtype, ref.dtype))
                 it["values"] = bool(it["dtype_same"] and unit_of(getattr(yy, "data", yy)) == unit_of(rr[k]) and val.shape == ref.shape and np.array_equal(val.astype(np.result_type(val, ref)),
                                                                                 ref.astype(np.result_type(val, ref)), equal_nan=True))
             items.append(it)
